@@ -8,7 +8,7 @@
     and input: no bound on sizes. *)
 From Coq Require Import List Arith ZArith NArith Bool Sorted Permutation.
 From RimeV Require Import Lookup.Defs Lookup.Model Lookup.Spec Lookup.MapProofs Lookup.QueryProofs Lookup.IterProofs
-     Lookup.LookupProofs Lookup.ScriptProofs Lookup.TableProofs Lookup.Examples Lookup.Compose Lookup.WeightProofs Lookup.LazyProofs.
+     Lookup.LookupProofs Lookup.ScriptProofs Lookup.TableProofs Lookup.Examples Lookup.Compose Lookup.WeightProofs Lookup.LazyProofs Lookup.ComposeTable.
 Import ListNotations.
 
 (** * Table::Query returns, at every end position, exactly the index codes that label a path of the graph *)
@@ -285,6 +285,56 @@ Theorem C07_script_contains_entries_on_normal_segmentations : forall cv P delims
   exists k, In k (script_query poet wordcompl mh (conv_graph cv g0) t) /\ k_text k = te_text te.
 Proof. exact script_contains_entries_on_normal_segmentations. Qed.
 Print Assumptions C07_script_contains_entries_on_normal_segmentations.
+
+(** * composition with C06 (Dict/Vocab.v, Dict/TableIx.v): the index Table::Build produces meets the hypotheses made
+    above - for every vocabulary C06 calls well-formed, hence for every source ([cast] : the double -> float cast of
+    the log weight, [wz] : any valuation of the stored weight that is monotone through the cast) *)
+Theorem C07_built_index_wf : forall F (cast : Vo.dec -> F) (wz : F -> Z) S v,
+  TP.wf1 S v -> wf_table (conv_head F wz (Ix.build_head cast S v)).
+Proof. exact built_index_wf. Qed.
+Print Assumptions C07_built_index_wf.
+
+Theorem C07_built_index_sorted : forall F (cast : Vo.dec -> F) (wz : F -> Z),
+  (forall a b, Vo.dec_leb a b = true -> (wz (cast a) <= wz (cast b))%Z) ->
+  forall S v, TP.sorted1 v -> table_sorted (conv_head F wz (Ix.build_head cast S v)).
+Proof. exact built_index_sorted. Qed.
+Print Assumptions C07_built_index_sorted.
+
+Theorem C07_compiled_index_wf : forall F (cast : Vo.dec -> F) (wz : F -> Z) sort_original files,
+  let c := Vo.collect_files files in
+  wf_table (conv_head F wz (Ix.build_head cast (length (Vo.co_syll c)) (Vo.compile_vocab sort_original c))).
+Proof. exact compiled_index_wf. Qed.
+Print Assumptions C07_compiled_index_wf.
+
+Theorem C07_compiled_index_sorted : forall F (cast : Vo.dec -> F) (wz : F -> Z),
+  (forall a b, Vo.dec_leb a b = true -> (wz (cast a) <= wz (cast b))%Z) ->
+  forall files, let c := Vo.collect_files files in
+  table_sorted (conv_head F wz (Ix.build_head cast (length (Vo.co_syll c)) (Vo.compile_vocab false c))).
+Proof. exact compiled_index_sorted. Qed.
+Print Assumptions C07_compiled_index_sorted.
+
+(** both sides together: for every source dictionary (C06's pipeline), every well-formed prism, delimiter set,
+    flags and input (C08's builder), the script translator's phrase candidates are exactly the entries of the
+    compiled index whose code labels a chain of retained edges from 0, each on a complete segmentation of the
+    interpreted input.  (C06_enumerate_build identifies the entries of the index with the source rows.) *)
+Theorem C07_script_candidates_exact_source_to_candidates :
+  forall F (cast : Vo.dec -> F) (wz : F -> Z) sort_original files cv P delims comp strict inp g0,
+  SS.prism_wf P delims -> Sy.build_syllable_graph P delims comp strict inp = Some g0 ->
+  0 < Sy.g_interpreted_length g0 ->
+  let c := Vo.collect_files files in
+  let t := conv_head F wz (Ix.build_head cast (length (Vo.co_syll c)) (Vo.compile_vocab sort_original c)) in
+  let g := conv_graph cv g0 in
+  forall e code txt,
+  (In (mkCand TPhrase 0 e txt code) (script_phrases (lookup g t 0 false)) <->
+   (exists w, table_has t code (mkTE txt w) /\ spelled g code 0 e)) /\
+  (In (mkCand TPhrase 0 e txt code) (script_phrases (lookup g t 0 false)) ->
+   epath g0 0 code e /\ on_complete_segmentation g e).
+Proof.
+  intros F cast wz so files cv P delims comp strict inp g0 WF HB Hl c t g e code txt.
+  apply (script_candidates_exact_over_built_graph cv P delims comp strict inp g0 WF HB t e code txt);
+    [apply compiled_index_wf|exact Hl].
+Qed.
+Print Assumptions C07_script_candidates_exact_source_to_candidates.
 
 (** * non-vacuity *)
 Theorem C07_example_meets_hypotheses :
